@@ -35,3 +35,28 @@ Theorem C07_width_irrelevant : forall w p pn dst t L1 m1 L2 m2 (h0 : heap) i, (m
   assign (fop w p pn) (mulmod_shoup w p) (fcsh w p) dst (tr t) L1 m1 h0 dst i = assign (fop w p pn) (mulmod_shoup w p) (fcsh w p) dst (tr t) L2 m2 h0 dst i.
 Proof. exact assign_width. Qed.
 Print Assumptions C07_width_irrelevant.
+
+(* poly::operator=(ops::expr<Op, Args...> const&) OF THE SOURCE -- the evaluation of an expression template into its destination -- read from
+   include/nfl/core.hpp on every run at 27 instantiations (c = a + b, a - b, a * b; three limb types; serial, SSE, AVX2), each with the vector width
+   the source gives it (gen/GenAssign.v over ExprSem.assign_prog: the loop nest over the moduli and the vectors, with the static_assert as guard).
+   With the statement of its body -- evaluate lanes j .. j+VS-1 from the CURRENT memory, store them to the destination -- it is, modulus by
+   modulus, Expr.assign with some width dividing 16: the function C07_assign_aliasing (coefficient-wise meaning on the ORIGINAL operands, whatever
+   aliases what) and C07_width_irrelevant are about. *)
+From NTT Require AssignSpec.
+Theorem C07_source_assign : AssignSpec.assign_statement.
+Proof. exact AssignSpec.source_assign. Qed.
+Print Assumptions C07_source_assign.
+(* the statement in full for one of them *)
+Theorem C07_source_assign_add_avx2_u16 : forall fop fshoup3 fcshoup dst t L, exists VS : nat, (VS = 1 \/ VS = 2 \/ VS = 4 \/ VS = 8 \/ VS = 16)%nat /\
+  forall degree nm (s : nat -> Expr.heap), L = VS -> (0 < VS)%nat -> Z.of_nat VS < 2 ^ 62 -> 0 <= degree < 2 ^ 62 -> 0 <= nm < 2 ^ 62 -> (Z.of_nat VS | degree) ->
+  exists s', GenAssign.gen_assign_add_avx2_u16 degree nm (fun cm j s => Some (AssignSpec.body fop fshoup3 fcshoup dst t L cm j s)) s = Some s' /\
+             forall c, s' c = if (c <? Z.to_nat nm)%nat then Expr.assign fop fshoup3 fcshoup dst t L (Z.to_nat (degree / Z.of_nat VS)) (s c) else s c.
+Proof. intros fop fshoup3 fcshoup dst t L. exact (proj1 (proj2 (proj2 (AssignSpec.source_assign fop fshoup3 fcshoup dst t))) L). Qed.
+Print Assumptions C07_source_assign_add_avx2_u16.
+Example C07_source_assign_example :
+  let fop := fun (_ : nat) x y => x + y in
+  let s0 : nat -> Expr.heap := fun c x i => Z.of_nat (100 * c + 10 * x + i) in
+  match GenAssign.gen_assign_add_sse_u32 8 2 (fun cm j s => Some (AssignSpec.body fop (fun _ _ _ => 0) (fun _ => 0) 2%nat (Expr.Bin 0%nat (Expr.Leaf 0%nat) (Expr.Leaf 2%nat)) 4%nat cm j s)) s0 with
+  | Some s' => List.map (s' 1%nat 2%nat) (List.seq 0 8) = List.map (fun i => s0 1%nat 0%nat i + s0 1%nat 2%nat i) (List.seq 0 8) /\ List.map (s' 1%nat 0%nat) (List.seq 0 8) = List.map (s0 1%nat 0%nat) (List.seq 0 8)
+  | None => False end.
+Proof. exact AssignSpec.source_assign_example. Qed.
